@@ -28,7 +28,7 @@ def validate(module, traces, invariants=(), properties=(), workers=16, timeout=3
         diags = {}
         rej = [i for i in range(len(traces)) if i not in acc]
         if rej and diag:
-            sub = [traces[i] for i in rej[:200]]
+            sub = [traces[i] for i in rej[:3000]]
             with open(p, "w") as fh:
                 json.dump(sub, fh)
             env2 = dict(env)
